@@ -96,7 +96,7 @@ def modelFull (l : Line) : String × Bool :=
     let m := GenCodec.TimeUnmarshalJSON 0 o 0 (str l "lit")
     (showOutR m, outR m == outOfLine l (int l "o.v"))
   | "jbool" =>
-    let m := GenCodec.BoolUnmarshalJSON 0 false (str l "lit")
+    let m := GenCodec.BoolUnmarshalJSON 0 o false (str l "lit")
     (showOutR m, outR m == outOfLine l (bool l "o.v"))
   | "jspace" =>
     let m := GenCodec.SpaceDelimitedArrayUnmarshalJSON 0 o [] (str l "lit")
